@@ -69,6 +69,7 @@ def int_classes(bl, rnd):
 CONST_CHOICES = {
     "k": [1, 2, 3, 4, 5, 7, 8],
     "K": [0, 1, -1, 2, -2, 3, 5, -7, 10],
+    "N": [-1, -2, -3, -4, -6, 2, 3],
     "B": ["0", "1", "True", "False"],
     "e": [0, 1, 2, 3],
     "z": [0, 1],
